@@ -821,9 +821,9 @@ fn part_c(ctx: &mut Ctx) {
         });
     }
     // other rates through the public constructor
-    for &rho in &[2usize, 8] {
+    for &rho in &[2usize, 3, 5, 6, 8] {
         let pp = LigeroPCParams::<Fr, MTConfig, ColH>::new(100, rho, true, (), (), ());
-        for &m in &[4usize, 16] {
+        for &m in &[1usize, 2, 3, 4, 16] {
             let id = format!("C13/encode/uni-ligero-rho{}/{}", rho, m);
             rs_case(ctx, &id, "uni-ligero-encode", m, rho, &|v: &[Fr]| match guarded(|| UL::encode(v, &pp)) {
                 Ok(Ok(w)) => Ok(w),
